@@ -42,7 +42,7 @@ def gen_server(rng, consts, many_peers=False, long_times=False):
     resps = []
     world = []
     for i in range(nresp):
-        a = addr_in_family(rng, v6, 100 + i, special=rng.chance(1, 3))
+        a = addr_in_family(rng, v6, 100 + i, special=(rng.chance(1, 2) if i == 0 else rng.chance(1, 3)))
         idv = comp.rand_id(rng) if rng.chance(2, 3) else own ^ (1 << rng.below(160))
         mode = "normal" if i == 0 or rng.chance(3, 4) else "silent"
         sc.add_resp("r%d" % i, a, idv, mode)
@@ -216,6 +216,10 @@ def gen_lookup(rng, consts, hostile=False, faults=False, early=False, sizes=None
             for dt in (700 * MS, 2 * S, 2900 * MS):
                 sc.add("at %d state n" % (t + dt))
         t += rng.choice([0, 1 * MS, 200 * MS, 2 * S, 8 * S])
+    if faults and rng.chance(1, 3):
+        # about half of the node's sends fail while the first search runs its rounds (partial failure inside one round)
+        sc.add("sendfail %s %d %d %d" % (naddr.script(), searches[0]["t"], searches[0]["t"] + rng.choice([100 * MS, 2 * S, 4 * S]),
+                                         rng.choice([500, 300, 700])))
     if hostile:
         other = addr_in_family(rng, v6, 9000)
         base = searches[0]["t"]
